@@ -206,21 +206,21 @@ class FileReader(FileBase):
             raise OSError(msg)
 
         count = nunits // self.bitsinfo.bitfact
-        data = []
-        while count >= 0:
-            count_read = min(self.sinfo.entries[self.ifile_cur].datalen, count)
-            data_read = np.fromfile(
-                self.file_obj,
-                count=count_read,
-                dtype=self.bitsinfo.dtype,
-            )
-            count -= len(data_read)
-            data.append(data_read)
-
-            if count == 0:
+        # Read bytes (not elements), so that an element split across a file
+        # boundary is assembled from both files instead of being skipped.
+        read_buffer = bytearray(count * self.bitsinfo.itemsize)
+        read_buffer_view = memoryview(read_buffer)
+        nbytes = 0
+        while nbytes < len(read_buffer_view):
+            nbytes_read = self.file_obj.readinto(read_buffer_view[nbytes:])
+            if nbytes_read is None:
+                msg = "file might in non-blocking mode"
+                raise BlockingIOError(msg)
+            nbytes += nbytes_read
+            if nbytes == len(read_buffer_view):
                 break
             self._seek2hdr(self.ifile_cur + 1)
-        data_ar = np.concatenate(data)
+        data_ar = np.frombuffer(read_buffer, dtype=self.bitsinfo.dtype)
         if self.bitsinfo.unpack:
             return unpack(data_ar, self.bitsinfo.nbits, bitorder=self.bitsinfo.bitorder)
         return data_ar
